@@ -80,7 +80,18 @@ def gen_raw_driver(envs, groups, ninner, stem, with_swap=True):
     return "\n".join(src) + "\n", expect
 
 
-def build_raw(text, workdir, stem, driver_src):
+def repair_part_helpers(src):
+    """The generated .pp.cpp with exactly the known defect
+    raw-swap-inner-part-overaligned removed: a part helper returns its end
+    as it is (the caller aligns it for the next part) instead of rounding it
+    up to its own alignment first.  Used ONLY to decide whether a failing swap
+    case is explained by that known finding (it is iff it passes here)."""
+    import re
+    return re.sub(r"return cast<(\w+::part\d+)\*>\((.*)\);",
+                  r"return static_cast<\1*>(static_cast<void*>(\2));", src)
+
+
+def build_raw(text, workdir, stem, driver_src, patch=None):
     path = os.path.join(workdir, stem + ".prophy")
     with open(path, "w") as f:
         f.write(text)
@@ -88,6 +99,12 @@ def build_raw(text, workdir, stem, driver_src):
         P.run_prophyc([path, "--cpp_out", workdir])
     except BaseException as e:  # noqa
         raise C.BuildFailure("prophyc", "%s: %s" % (type(e).__name__, str(e)[:2000]))
+    if patch:
+        srcp = os.path.join(workdir, stem + ".pp.cpp")
+        with open(srcp) as f:
+            body = f.read()
+        with open(srcp, "w") as f:
+            f.write(patch(body))
     with open(os.path.join(workdir, "drv.cpp"), "w") as f:
         f.write(driver_src)
     exe = os.path.join(workdir, "drv")
@@ -141,9 +158,39 @@ def worker(inner_defs, groups, extra):
                 check_tables(gs, envs, exe, wd, expect, res)
             if "swap" in checks:
                 check_swap(gs, envs, exe, wd, res)
+                attribute_part_overalignment(inner_defs, gs, res, work)
     finally:
         shutil.rmtree(work, ignore_errors=True)
     return res
+
+
+def attribute_part_overalignment(inner_defs, gs, res, work):
+    """Failing swap cases on schemas that contain the pattern of the known
+    finding raw-swap-inner-part-overaligned are re-run on a build in which
+    exactly that defect is repaired (repair_part_helpers): the failure is
+    explained by the known finding iff it is gone there."""
+    key = "raw-swap-inner-part-overaligned"
+    open_fails = [f for f in res["fails"] if f["check"] == "swap" and key in (f.get("features") or ())
+                  and "explained_by_repaired_build" not in f]
+    gids = {f["gid"] for f in open_fails}
+    sus = [g for g in gs if g["gid"] in gids]
+    if not sus:
+        return
+    sub = tempfile.mkdtemp(prefix="rep", dir=work)
+    try:
+        envs, text = render_batch(inner_defs, sus)
+        drv, _ = gen_raw_driver(envs, sus, len(inner_defs), "b", with_swap=True)
+        exe = build_raw(text, sub, "b", drv, patch=repair_part_helpers)
+        res2 = {"fails": [], "n_vec": 0, "n_groups": 0, "nontrivial": [], "samples": [], "n_checked": {}, "n_cases": 0}
+        check_swap(sus, envs, exe, sub, res2)
+        still = {f.get("case") for f in res2["fails"]}
+        for f in open_fails:
+            f["explained_by_repaired_build"] = f.get("case") not in still
+    except C.BuildFailure:
+        for f in open_fails:
+            f["explained_by_repaired_build"] = False
+    finally:
+        shutil.rmtree(sub, ignore_errors=True)
 
 
 def check_tables(groups, envs, exe, wd, expect, res):
